@@ -1,11 +1,12 @@
 #!/bin/bash
-# Runs the repository's baseline suite (lib + integration tests, guard off) and
-# prints the pass/fail totals. Exit 0 iff 100 passed and none failed.
+# Runs the repository's baseline suite (guard off) the way BASELINE.json does:
+# cargo nextest, one process per test (plain `cargo test` runs tests as threads
+# of one process, and the crate's `static mut` globals make that racy).
+# Exit 0 iff 100 passed and none failed.
 cd /repo || exit 2
-out=$(CARGO_NET_OFFLINE=true cargo test --workspace --no-fail-fast --offline --lib --bins --tests 2>&1)
-passed=$(echo "$out" | grep -E "^test result" | sed -E 's/.* ([0-9]+) passed.*/\1/' | paste -sd+ | bc)
-failed=$(echo "$out" | grep -E "^test result" | sed -E 's/.* ([0-9]+) failed.*/\1/' | paste -sd+ | bc)
-echo "passed=$passed failed=$failed"
-if [ "$passed" = "100" ] && [ "$failed" = "0" ]; then exit 0; fi
-echo "$out" | grep -E "FAILED|panicked|error" | head -20
+out=$(CARGO_NET_OFFLINE=true cargo nextest run --workspace --no-fail-fast --test-threads 8 --offline 2>&1)
+line=$(echo "$out" | grep -E "Summary" | tail -1)
+echo "$line"
+if echo "$line" | grep -q "100 tests run: 100 passed"; then exit 0; fi
+echo "$out" | grep -E "FAIL|panicked" | head -20
 exit 1
